@@ -1164,3 +1164,167 @@ Qed.
 Lemma dec_hdr_roundtrip_bytes b h : bytes_ok b = true ->
   dec_hdr b = Some h -> wf_hdr h = true /\ enc_hdr h = zfirstn hdr_len b.
 Proof. intros OK D. split; [exact (dec_hdr_wf b h OK D)|exact (enc_dec_hdr b h OK D)]. Qed.
+
+
+(* ================= injecting what the image already holds ================= *)
+
+(* writes of the bytes that are already there change nothing *)
+Lemma apply_writes_same ws : forall img,
+  (forall w, In w ws -> 0 <= fst w /\ fst w + zlen (snd w) <= zlen img /\
+                        sub (fst w) (zlen (snd w)) img = snd w) ->
+  apply_writes img ws = img.
+Proof.
+  induction ws as [|w ws IH]; intros img H; cbn [apply_writes]; auto.
+  destruct (H w (or_introl eq_refl)) as (A & B & C).
+  assert (E : splice (fst w) (snd w) img = img).
+  { rewrite <- C at 1. apply splice_same; auto. apply zlen_nonneg. }
+  transitivity (apply_writes img ws); [f_equal; exact E|].
+  apply IH. intros w' I. apply H. right; auto.
+Qed.
+
+(* an image that holds the entries at [off] is a fixed point of their injection at [off] *)
+Theorem inject_same img off es : holds img off es -> layout_ok img off es = true ->
+  forallb wf_hdr (map e_hdr es) = true -> inject img es off = (img, 0).
+Proof.
+  intros [HL HP (O1 & O2) HT HD] LO W. rewrite inject_full by auto. f_equal.
+  assert (Lm : zlen (map e_hdr es) = zlen es) by (unfold zlen; rewrite map_length; reflexivity).
+  apply apply_writes_same. unfold inject_writes. intros w [<-|[<-|I]]; cbn [fst snd].
+  - rewrite le8. assert (FP : fit_pointer_offset = 64) by reflexivity. repeat split; try lia. exact HP.
+  - rewrite zlen_enc_table, Lm by auto. repeat split; try lia. exact HT.
+  - unfold data_writes in I. apply in_map_iff in I as (e & <- & I). apply filter_In in I as (I & D).
+    cbn [fst snd]. destruct (HD e I D) as (A & B & C). repeat split; auto.
+Qed.
+
+(* the error class of an entry plays no role in an injection *)
+Lemma inject_datas_as_read es : forall st, inject_datas st (map as_read es) = inject_datas st es.
+Proof.
+  induction es as [|e es IH]; intros st; cbn [map inject_datas]; auto.
+  assert (E : inject_data st (as_read e) = inject_data st e).
+  { unfold as_read. destruct ((e_kind e =? fit_type_diagnostic_acm) || (e_kind e =? fit_type_tpm_policy)); reflexivity. }
+  rewrite E. destruct (inject_data st e) as [st1 c]. destruct (c =? 0); auto.
+Qed.
+
+Lemma map_hdr_as_read es : map e_hdr (map as_read es) = map e_hdr es.
+Proof.
+  rewrite map_map. apply map_ext. intros e. unfold as_read.
+  destruct ((e_kind e =? fit_type_diagnostic_acm) || (e_kind e =? fit_type_tpm_policy)); reflexivity.
+Qed.
+
+Lemma inject_as_read img es off : inject img (map as_read es) off = inject img es off.
+Proof.
+  unfold inject. rewrite map_hdr_as_read.
+  destruct (rws_seek img (zlen img - fit_pointer_offset)) as [p|]; auto.
+  destruct (rws_write img p (le_enc 8 (phys_of_offset off (zlen img)))) as [[st1 p1] ok1].
+  destruct ok1; cbn [negb]; auto.
+  destruct (rws_seek st1 (s64 off)) as [p2|]; auto.
+  destruct (write_headers st1 p2 (map e_hdr es)) as [[st2 p3] ok2].
+  destruct ok2; cbn [negb]; auto. apply inject_datas_as_read.
+Qed.
+
+Lemma layout_ok_zlen img img' off es : zlen img' = zlen img -> layout_ok img' off es = layout_ok img off es.
+Proof. intros L. unfold layout_ok. rewrite L. reflexivity. Qed.
+
+(* inject, read the entries back, inject what was read at the same place: nothing changes *)
+Theorem reinject_identity img off es : layout_ok img off es = true ->
+  forallb entry_ok es = true -> first_ok es = true ->
+  let img' := fst (inject img es off) in
+  get_entries img' = Ok (map as_read es) /\ inject img' (map as_read es) off = (img', 0).
+Proof.
+  intros LO EO F img'. pose proof (entries_wf es EO) as W.
+  destruct (inject_holds img off es LO W) as (_ & L & _ & H). fold img' in L, H.
+  split; [apply (read_back _ off); auto|].
+  rewrite inject_as_read. apply inject_same; auto.
+  rewrite (layout_ok_zlen img img') by exact L. exact LO.
+Qed.
+
+(* ================= Table.WriteToFirmwareImage ================= *)
+
+(* entries without data carrying the given headers: only the headers matter to the table *)
+Definition bare (hs : list hdr) : list entry := map (fun h => mkEntry fit_type_fit_header h [] 0) hs.
+
+(* the first header describes the table: magic and entry count *)
+Definition table_first_ok (hs : list hdr) : bool :=
+  match hs with
+  | [] => false
+  | h0 :: _ => (h_addr h0 =? magic_addr) && (hsz h0 =? zlen hs)
+  end.
+
+Lemma map_hdr_bare hs : map e_hdr (bare hs) = hs.
+Proof. unfold bare. rewrite map_map. cbn [e_hdr]. apply map_id. Qed.
+
+Lemma zlen_bare hs : zlen (bare hs) = zlen hs.
+Proof. unfold bare, zlen. rewrite map_length. reflexivity. Qed.
+
+Lemma first_ok_bare hs : table_first_ok hs = true -> first_ok (bare hs) = true.
+Proof.
+  destruct hs as [|h0 r]; [discriminate|]. unfold table_first_ok, first_ok.
+  change (bare (h0 :: r)) with (mkEntry fit_type_fit_header h0 [] 0 :: bare r).
+  cbn [e_kind e_hdr]. rewrite !zlen_cons, zlen_bare. intros H.
+  apply andb_true_iff in H as [A B]. rewrite A, B, Z.eqb_refl. reflexivity.
+Qed.
+
+(* An image that holds a FIT at [off]; a new table [hs] (any length that fits below the end of the image
+   and keeps clear of the FIT pointer) whose first header carries the magic and its own entry count:
+   WriteToFirmwareImage succeeds, only the bytes of the new table change, and the table found and
+   read back afterwards is [hs]. *)
+Theorem write_table_spec img off es hs :
+  holds img off es -> forallb wf_hdr (map e_hdr es) = true -> first_ok es = true ->
+  forallb wf_hdr hs = true -> table_first_ok hs = true ->
+  off + hdr_len * zlen hs <= zlen img ->
+  disjoint (zlen img - fit_pointer_offset, 8) (off, hdr_len * zlen hs) = true ->
+  exists img', write_table img hs = Ok (img', 0) /\ zlen img' = zlen img /\
+    (forall k, in_range (Z.of_nat k) (off, hdr_len * zlen hs) = false ->
+       nth_error img' k = nth_error img k) /\
+    table_range img' = Ok (off, off + hdr_len * zlen hs) /\ get_table img' = Ok hs.
+Proof.
+  intros H W F Wh Fh Fit Dj.
+  pose proof (table_range_holds img off es H W F) as TR.
+  destruct H as [(N1 & N2) P (O1 & O2) _ _].
+  assert (HL : hdr_len = 16) by reflexivity.
+  assert (FP : fit_pointer_offset = 64) by reflexivity.
+  pose proof (zlen_nonneg hs) as Nh. pose proof (zlen_enc_table hs Wh) as Lt.
+  set (img' := splice off (enc_table hs) img).
+  assert (L : zlen img' = zlen img) by (apply zlen_splice; lia).
+  assert (O : forall k, in_range (Z.of_nat k) (off, hdr_len * zlen hs) = false ->
+                nth_error img' k = nth_error img k).
+  { intros k R. unfold in_range in R; cbn [fst snd] in R.
+    destruct (Z_lt_dec (Z.of_nat k) off).
+    - apply nth_error_splice_lo; lia.
+    - apply nth_error_splice_hi; lia. }
+  exists img'. split; [|split; [exact L|split; [exact O|]]].
+  - unfold write_table. rewrite TR. cbn [bind fst]. rewrite s64_small by lia.
+    rewrite rws_seek_ok by lia. rewrite write_headers_full by (auto; lia). reflexivity.
+  - assert (Hd : holds img' off (bare hs)).
+    { constructor; rewrite ?L, ?zlen_bare, ?map_hdr_bare.
+      - lia.
+      - rewrite <- P. apply sub_ext; [lia|]. intros i Hi. apply O.
+        unfold disjoint in Dj; cbn [fst snd] in Dj. unfold in_range; cbn [fst snd]. lia.
+      - lia.
+      - rewrite <- Lt. apply sub_splice; lia.
+      - intros e I D. unfold bare in I. apply in_map_iff in I as (h & <- & _). discriminate D. }
+    pose proof (first_ok_bare hs Fh) as Fb.
+    assert (Wb : forallb wf_hdr (map e_hdr (bare hs)) = true) by (rewrite map_hdr_bare; exact Wh).
+    pose proof (table_range_holds img' off (bare hs) Hd Wb Fb) as T1.
+    pose proof (get_table_holds img' off (bare hs) Hd Wb Fb) as T2.
+    rewrite zlen_bare in T1. rewrite map_hdr_bare in T2. split; assumption.
+Qed.
+
+(* the same for an image produced by an injection: the table is replaced, nothing else changes, and
+   the new table is what is read back *)
+Theorem inject_write_table img off es hs : layout_ok img off es = true ->
+  forallb entry_ok es = true -> first_ok es = true ->
+  forallb wf_hdr hs = true -> table_first_ok hs = true ->
+  off + hdr_len * zlen hs <= zlen img ->
+  disjoint (zlen img - fit_pointer_offset, 8) (off, hdr_len * zlen hs) = true ->
+  let img1 := fst (inject img es off) in
+  exists img2, write_table img1 hs = Ok (img2, 0) /\ zlen img2 = zlen img /\
+    (forall k, in_range (Z.of_nat k) (off, hdr_len * zlen hs) = false ->
+       nth_error img2 k = nth_error img1 k) /\
+    table_range img2 = Ok (off, off + hdr_len * zlen hs) /\ get_table img2 = Ok hs.
+Proof.
+  intros LO EO F Wh Fh Fit Dj img1. pose proof (entries_wf es EO) as W.
+  destruct (inject_holds img off es LO W) as (_ & L & _ & H). fold img1 in L, H.
+  rewrite <- L in Fit, Dj.
+  destruct (write_table_spec img1 off es hs H W F Wh Fh Fit Dj) as (img2 & A & B & C & D).
+  exists img2. rewrite <- L. auto.
+Qed.
